@@ -75,10 +75,15 @@ def sub_recipe(draw, max_budget=60, opts=None, min_level=4):
     g = G(draw, mode, level, budget, opts)
     nr = g.pick([1, 1, 2, 2, 3, 4])
     # signatures + potential call graph
-    shape = g.pick(["dag", "self", "mutual", "any"])
+    shape = g.pick(["dag", "self", "mutual", "any", "any", "diamond"])
+    if shape == "diamond":
+        nr = g.pick([4, 4, 5])
     may = []
     for i in range(nr):
-        if shape == "dag":
+        if shape == "diamond":
+            # two (or three) different callees of routine 0 lead back to it through one shared routine
+            m = list(range(1, nr - 1)) if i == 0 else ([nr - 1] if i < nr - 1 else [0])
+        elif shape == "dag":
             m = [j for j in range(i + 1, nr) if g.chance(6)]
         elif shape == "self":
             m = [i] + [j for j in range(i + 1, nr) if g.chance(4)]
@@ -119,8 +124,21 @@ def sub_recipe(draw, max_budget=60, opts=None, min_level=4):
             g.new_var(g.pick(["U", "B"]), cx)
         g.budget = max(g.budget, 6)
         stmts = [g.S(cx.sub()) for _ in range(g.i(0, 3))]
+        if shape == "diamond":
+            # every edge of the diamond is taken, with a local variable written before each call and observed after it
+            for callee in r["may_call"]:
+                lv = g.new_var("U", cx)
+                stmts.append(["store", lv, ["nary", "Add", [["param", "fuel"], ["int", 100 * (i + 1) + callee]]]])
+                c = g.call(cx.sub(), want=g.routines[callee]["ret"], only=callee)
+                if c is not None:
+                    tgt = c[2] if c[0] == "if" else c
+                    stmts.append(c if g.routines[tgt[1]]["ret"] == "N" else ["pop", c])
+                marker = ["nary", "Add", [["param", "fuel"], ["int", 100 * (i + 1) + callee]]]
+                stmts.append(["assert", [["bin", "Eq", ["load", lv], marker]], None])
+                if mode == "app" and level >= 5:
+                    stmts.append(["log", ["un", "Itob", ["load", lv]]])
         # make sure recursion happens reasonably often
-        if r["may_call"] and g.chance(7):
+        elif r["may_call"] and g.chance(7):
             c = g.call(cx.sub(), want=g.routines[g.pick(r["may_call"])]["ret"])
             if c is not None:
                 tgt = c[2] if c[0] == "if" else c
@@ -167,6 +185,11 @@ def sub_recipe(draw, max_budget=60, opts=None, min_level=4):
                 stmts[-1] = ["log", ["un", "Itob", stmts[-1][1]]]
         else:
             stmts.append(["log", c] if (mode == "app" and level >= 5) else ["pop", c])
+    if shape == "diamond":
+        c = g.call(cxm.sub(), want=g.routines[0]["ret"], only=0)
+        if c is not None:
+            c[2][0] = ["int", g.pick([3, 3, 4, 6])]
+            stmts.append(c if g.routines[0]["ret"] == "N" else ["pop", c])
     final = g.U(cxm.sub()) if g.chance(7) else ["return", g.U(cxm.operand())]
     for r in g.routines:
         r.pop("callable", None)
